@@ -20,7 +20,8 @@ RULE = ('corpus; random pairwise dictionaries over 3..6 candidates (Kemeny <= 5)
         'n = |C|. profile-derived: ranked profiles (truncation, bullet votes, shared ranks, unranked_at_bottom both ways) through the LIBRARY\'s '
         'RankedToCondorcetVotes into every EVALUATORS entry, and Benham / TidemanAlternative on the profile itself, judged against the Condorcet winner / Smith set of an '
         'INDEPENDENT pairwise count of the profile (harness). hybrids: ranked profiles over 1..6 candidates (bullet votes, truncation, shared '
-        'ranks, zero weights, weights up to 1e25, three-cycles with equal blocks so that first preferences tie) through Benham / '
+        'ranks, zero weights, weights up to 1e25, three-cycles with equal blocks so that first preferences tie, ballots ending in one shared rank of all '
+        'other candidates so that later tiers have no pairwise contest) through Benham / '
         'TidemanAlternative (n_seats 1 in half of the cases, otherwise 2 .. candidates + 1), RANKED_TO_CONDORCET, RANKED_SUBSETTER and '
         'eliminate_one, compared with Model/Hybrids.v (result list, tie objects as sets, error kind) and judged by the declarative clauses '
         'on the implementation\'s answer (Condorcet winner alone / first; plain winner in the brute-force Smith set; several seats: min(n, candidates) '
@@ -284,16 +285,18 @@ def hyb_fixed():
     return _PROBE['fx']
 
 
-def single_fixed():
-    """does a candidate that stands alone get elected (fixes/C05-hybrid-single-candidate.diff: 1) or do Benham / TidemanAlternative
-    run into the IndexError of eliminate_one on a profile without a pairwise contest (0)?  The model has both (Model/Hybrids.v sc);
-    the old behaviour is reported by hyb_spec as a violation (known finding C05-hybrid-empty-pairwise, status fixed)."""
-    if 'sc' not in _PROBE:
+def single_fixed(which='tideman_alt'):
+    """does a candidate that stands alone get elected (fixes/C05-hybrid-single-candidate.diff: 1) or does Benham resp.
+    TidemanAlternative run into the IndexError of eliminate_one on a profile without a pairwise contest (0)?  Probed per class
+    (the patch repairs Benham.get_condorcet_winner and TidemanAlternative.get_winner_set).  The model has both behaviours
+    (Model/Hybrids.v sc); the old one is reported by hyb_spec as a violation (finding C05-hybrid-empty-pairwise, status fixed)."""
+    key = 'sc:' + which
+    if key not in _PROBE:
         import votelib.evaluate.sequential as seq
-        r1 = common.call_impl(lambda: seq.Benham().evaluate({('A',): 1}, 1), 5)
-        r2 = common.call_impl(lambda: seq.TidemanAlternative().evaluate({('A',): 1}, 1), 5)
-        _PROBE['sc'] = 1 if (r1[0] == 'ok' and r2[0] == 'ok') else 0
-    return _PROBE['sc']
+        ev = seq.Benham() if which == 'benham' else seq.TidemanAlternative()
+        r = common.call_impl(lambda: ev.evaluate({('A',): 1}, 1), 5)
+        _PROBE[key] = 1 if r[0] == 'ok' else 0
+    return _PROBE[key]
 
 
 def tiers_fixed():
@@ -315,9 +318,9 @@ def tiers_as_written():
 def hyb_line(c):
     m, prof = c['method'], sx(c['profile'])
     if m == 'benham':
-        return '%d (%d %d %s)' % (HB + 0, hyb_fixed(), single_fixed(), prof)
+        return '%d (%d %d %s)' % (HB + 0, hyb_fixed(), single_fixed('benham'), prof)
     if m == 'tideman_alt':
-        return '%d (%d %d %d %s %d)' % (HB + 1, hyb_fixed(), single_fixed(), tiers_fixed(), prof, c['n'])
+        return '%d (%d %d %d %s %d)' % (HB + 1, hyb_fixed(), single_fixed('tideman_alt'), tiers_fixed(), prof, c['n'])
     if m == 'to_condorcet':
         return '%d (%s)' % (HB + 2, prof)
     if m == 'subsetter':
@@ -485,6 +488,16 @@ def gen_hybrids(rng, count):
             for _ in range(rng.randint(0, 3)):
                 b = gen_hyb_ballot(rng, ids, shared_p)
                 prof[json_key(b)] = prof.get(json_key(b), 0) + rng.randint(1, 2)
+        elif style < 0.27 and m >= 2:
+            # boundary of the repaired get_winner_set: tiers / profiles WITHOUT a pairwise contest - every ballot ranks a few
+            # candidates (the same ones in every ballot: they get elected tier by tier) above ONE shared rank of all the others
+            top = ids[:rng.randint(0, max(0, m - 2))]
+            rest = ids[len(top):]
+            for _ in range(rng.randint(1, 3)):
+                t = top[:]
+                rng.shuffle(t)
+                b = t + ([sorted(rest)] if len(rest) > 1 else rest)
+                prof[json_key(b)] = prof.get(json_key(b), 0) + rng.randint(1, 3)
         else:
             wmax = rng.choice([1, 2, 5, 5, 10 ** 25])
             for _ in range(rng.randint(1, 7)):
